@@ -35,6 +35,12 @@ def tree_hash(repo=REPO):
                 h.update(hashlib.sha256(fh.read()).digest())
         except OSError:
             h.update(b'?')
+    # the facts also depend on the extractor
+    try:
+        with open(os.path.join(DRIVER_DIR, 'src', 'main.rs'), 'rb') as fh:
+            h.update(b'driver\0' + hashlib.sha256(fh.read()).digest())
+    except OSError:
+        pass
     return h.hexdigest()
 
 
